@@ -39,6 +39,23 @@ package bellatrix
 //@   assigns anything
 //@   ensures err == nil ==> post != nil
 
+// the state's latest execution payload header (assumed view models, snapshot semantics; C03)
+//@ sort StateX_bellatrix = ExecutionTrackingBeaconState
+//@ sort HdrViewP_bellatrix = *ExecutionPayloadHeaderView
+//@ sort HdrP_bellatrix = *ExecutionPayloadHeader
+//@ ufun st_exhdr_err_bellatrix(StateX_bellatrix) bool
+//@ ufun st_exhdr_bellatrix(StateX_bellatrix) HdrViewP_bellatrix
+//@ ufun exhdr_raw_err_bellatrix(HdrViewP_bellatrix) bool
+//@ ufun exhdr_raw_bellatrix(HdrViewP_bellatrix) HdrP_bellatrix
+//@ func (s ExecutionTrackingBeaconState) LatestExecutionPayloadHeader() (r, err)
+//@   trusted
+//@   ensures (err != nil) == st_exhdr_err_bellatrix(s)
+//@   ensures err == nil ==> r != nil && r == st_exhdr_bellatrix(s)
+//@ func (v *ExecutionPayloadHeaderView) Raw() (r, err)
+//@   trusted
+//@   ensures (err != nil) == exhdr_raw_err_bellatrix(v)
+//@   ensures err == nil ==> r != nil && r == exhdr_raw_bellatrix(v)
+
 // BEGIN C18 generated (tools/gen_c18.py in /verif)
 // cancelled: a context cancelled before the call makes it fail; surfaced: a cancellation observed by a poll
 // during the call makes it fail; polled: success after a poll means the context was not cancelled at entry.
@@ -62,7 +79,7 @@ package bellatrix
 //@   ensures asked_once: n_eng_notify <= old(n_eng_notify) + 1
 
 //@ func ProcessExecutionPayload(ctx, spec, state, executionPayload, engine) err
-//@   property C18
+//@   property C18 C03
 //@   panics off
 //@   requires ctx != nil
 //@   opt weakcalls
@@ -79,6 +96,8 @@ package bellatrix
 //@   ensures approved: err == nil ==> !eng_hash_err_bellatrix(engine, old(*executionPayload)) && eng_hash_ok_bellatrix(engine, old(*executionPayload)) && !eng_notify_err_bellatrix(engine, old(*executionPayload)) && eng_notify_valid_bellatrix(engine, old(*executionPayload)) && n_eng_notify == old(n_eng_notify) + 1
 //@   ensures header_after_approval: n_set_exec_header > old(n_set_exec_header) ==> n_set_exec_header == old(n_set_exec_header) + 1 && eng_hash_ok_bellatrix(engine, old(*executionPayload)) && eng_notify_valid_bellatrix(engine, old(*executionPayload)) && !eng_hash_err_bellatrix(engine, old(*executionPayload)) && !eng_notify_err_bellatrix(engine, old(*executionPayload))
 //@   ensures header_on_success: err == nil ==> n_set_exec_header == old(n_set_exec_header) + 1
+//@   ensures c03_randao: spec != nil && spec.SLOTS_PER_EPOCH != 0 && err == nil ==> !st_slot_err(state) && !st_mixes_err(state) && old(executionPayload.PrevRandao) == mix_at(st_mixes(state), st_slot(state) / spec.SLOTS_PER_EPOCH)
+//@   ensures c03_timestamp: spec != nil && spec.SECONDS_PER_SLOT != 0 && err == nil ==> !st_gentime_err(state) && old(executionPayload.Timestamp) == st_slot(state) * spec.SECONDS_PER_SLOT + st_gentime(state)
 
 //@ func (state *BeaconStateView) ProcessEpoch(ctx, spec, epc) err
 //@   property C18
